@@ -114,6 +114,7 @@ theorem decodeVal_after_pass : ∀ (t : VTy) (j j' : Json), normalize j = some j
   | bool => intro j j' hn _; cases j <;> simp [normalize] at hn <;> (try obtain ⟨_, _, rfl⟩ := hn) <;> (try obtain ⟨_, rfl⟩ := hn) <;> (try subst hn) <;> simp [decodeVal]
   | string => intro j j' hn _; cases j <;> simp [normalize] at hn <;> (try obtain ⟨_, _, rfl⟩ := hn) <;> (try obtain ⟨_, rfl⟩ := hn) <;> (try subst hn) <;> simp [decodeVal]
   | uint128 => intro j j' hn _; cases j <;> simp [normalize] at hn <;> (try obtain ⟨_, _, rfl⟩ := hn) <;> (try obtain ⟨_, rfl⟩ := hn) <;> (try subst hn) <;> simp [decodeVal]
+  | binary => intro j j' hn _; cases j <;> simp [normalize] at hn <;> (try obtain ⟨_, _, rfl⟩ := hn) <;> (try obtain ⟨_, rfl⟩ := hn) <;> (try subst hn) <;> simp [decodeVal]
   | addr => intro j j' hn _; cases j <;> simp [normalize] at hn <;> (try obtain ⟨_, _, rfl⟩ := hn) <;> (try obtain ⟨_, rfl⟩ := hn) <;> (try subst hn) <;> simp [decodeVal]
   | empty =>
     intro j j' hn hs
